@@ -279,13 +279,25 @@ theorem SInv.keep {Γ : Gam} {env : Env} {m m' : Mem} {F D o ra : Nat} (h : SInv
     (k : Keep p.w m m' (F - o)) (ho : p.w ≤ o) : SInv p Γ env m' F D o ra :=
   ⟨h.fr.keep k, h.vars.keep k (Nat.le_refl _) (Nat.le_refl _), by rw [k.read _ _ (by omega)]; exact h.ra⟩
 
-/-- where control is and what holds after a statement list -/
-def Post (p : Prog) (B ra : Nat) (Γ : Gam) (env' : Env) (F D o pcEnd : Nat) (res : Res) (st : St) : Prop :=
+/-- where control is and what holds after a statement list that started in memory `m0`: in every
+case the memory at and above the frame pointer, `fp` and `ap` are what they were (`Keep … F`) -/
+def Post (p : Prog) (B ra : Nat) (Γ : Gam) (env' : Env) (F D o pcEnd : Nat) (m0 : Mem) (res : Res) (st : St) : Prop :=
   match res with
-  | .norm => st.pc = pcEnd ∧ SInv p Γ env' st.mem F D o ra
-  | .returned => st.pc = ra
+  | .norm => st.pc = pcEnd ∧ SInv p Γ env' st.mem F D o ra ∧ Keep p.w m0 st.mem F
+  | .returned => st.pc = ra ∧ Keep p.w m0 st.mem F
+  | .retv v => st.pc = ra ∧ Keep p.w m0 st.mem F ∧ st.mem.readLE (F - p.w) p.w = v
   | .div0 => st.pc = B + off_division_by_zero
   | .defeat => False
+
+/-- the same facts relative to an earlier memory -/
+theorem Post.rebase {B ra : Nat} {Γ : Gam} {env' : Env} {F D o e : Nat} {m m1 : Mem} {res : Res} {st : St}
+    (k : Keep p.w m m1 F) (h : Post p B ra Γ env' F D o e m1 res st) : Post p B ra Γ env' F D o e m res st := by
+  cases res with
+  | norm => exact ⟨h.1, h.2.1, k.trans' h.2.2⟩
+  | returned => exact ⟨h.1, k.trans' h.2⟩
+  | retv v => exact ⟨h.1, k.trans' h.2.1, h.2.2⟩
+  | div0 => exact h
+  | defeat => exact h
 
 theorem look_cons_same (Γ : Gam) (x : String) (a : Nat) : look ((x, a) :: Γ) x = a := by
   simp [look, List.lookup]
@@ -391,6 +403,10 @@ theorem pkS_ge (w : Nat) (s : S) : ∀ o, o ≤ pkS w o s := by
   | defeat k ih => intro o; simpa [pkS] using ih o
   | defeatIf c k ih => intro o; have := ih o; simp only [pkS]; omega
   | tryUndo b h k _ _ ih => intro o; have := ih o; simp only [pkS]; omega
+  | retE e => intro o; simpa [pkS] using pkE_ge w e o false
+  | callS g args k ih => intro o; have := ih o; simp only [pkS]; omega
+  | declCall x g args k ih => intro o; have := ih (o + w); simp only [pkS, pkCall]; omega
+  | assignCall x g args k ih => intro o; have := ih o; simp only [pkS]; omega
 
 theorem yld_reach (pc v : Nat) (m : Mem) (h : p.code[pc]? = some (.yld (.imm v))) :
     Reach (sphinx p) ⟨pc, m⟩ [Ev.out (v % p.M % 256)] ⟨pc + 1, m⟩ := by
@@ -421,6 +437,10 @@ theorem plain_noTry (s : S) : plain s = true → noTry s = true := by
   | defeat k _ => simp [plain]
   | defeatIf c k _ => simp [plain]
   | tryUndo b h k _ _ _ => simp [plain]
+  | retE e => intro; rfl
+  | callS g args k ih => simpa [plain, noTry] using ih
+  | declCall x g args k ih => simpa [plain, noTry] using ih
+  | assignCall x g args k ih => simpa [plain, noTry] using ih
 
 theorem plain_youLevel (s : S) : plain s = true → youLevel s = true := by
   induction s with
@@ -439,15 +459,19 @@ theorem plain_youLevel (s : S) : plain s = true → youLevel s = true := by
   | defeat k _ => simp [plain]
   | defeatIf c k _ => simp [plain]
   | tryUndo b h k _ _ _ => simp [plain]
+  | retE e => intro; rfl
+  | callS g args k ih => simpa [plain, youLevel] using ih
+  | declCall x g args k ih => simpa [plain, youLevel] using ih
+  | assignCall x g args k ih => simpa [plain, youLevel] using ih
 
 /-- at the level of the you function a defeat never escapes: every defeat call sits in a `try` -/
-theorem exec_no_defeat (M n : Nat) : ∀ (fuel : Nat) (s : S) (env env' : Env) (tr : List Ev) (res : Res),
-    youLevel s = true → exec M n fuel env s = some (env', tr, res) → res ≠ .defeat := by
+theorem exec_no_defeat (M n : Nat) (fns : List FDecl) (w : Nat) : ∀ (fuel : Nat) (s : S) (room o : Nat) (env env' : Env) (tr : List Ev) (res : Res),
+    youLevel s = true → exec M n fns w fuel room o env s = some (env', tr, res) → res ≠ .defeat := by
   intro fuel
   induction fuel with
-  | zero => intro s env env' tr res _ h; simp [exec] at h
+  | zero => intro s room o env env' tr res _ h; simp [exec] at h
   | succ f ih =>
-    intro s env env' tr res hy hex
+    intro s room o env env' tr res hy hex
     cases s with
     | nil => simp only [exec, Option.some.injEq, Prod.mk.injEq] at hex; rw [← hex.2.2]; decide
     | ret => simp only [exec, Option.some.injEq, Prod.mk.injEq] at hex; rw [← hex.2.2]; decide
@@ -456,13 +480,13 @@ theorem exec_no_defeat (M n : Nat) : ∀ (fuel : Nat) (s : S) (env env' : Env) (
       simp only [exec] at hex
       cases hev : evalE M n env e with
       | none => simp only [hev, Option.some.injEq, Prod.mk.injEq] at hex; rw [← hex.2.2]; decide
-      | some v => simp only [hev] at hex; exact ih k _ _ _ _ hy hex
+      | some v => simp only [hev] at hex; exact ih k _ _ _ _ _ _ hy hex
     | assign x e k =>
       simp only [youLevel] at hy
       simp only [exec] at hex
       cases hev : evalE M n env e with
       | none => simp only [hev, Option.some.injEq, Prod.mk.injEq] at hex; rw [← hex.2.2]; decide
-      | some v => simp only [hev] at hex; exact ih k _ _ _ _ hy hex
+      | some v => simp only [hev] at hex; exact ih k _ _ _ _ _ _ hy hex
     | write e k =>
       simp only [youLevel] at hy
       simp only [exec] at hex
@@ -470,62 +494,62 @@ theorem exec_no_defeat (M n : Nat) : ∀ (fuel : Nat) (s : S) (env env' : Env) (
       | none => simp only [hev, Option.some.injEq, Prod.mk.injEq] at hex; rw [← hex.2.2]; decide
       | some v =>
         simp only [hev] at hex
-        cases hk : exec M n f env k with
+        cases hk : exec M n fns w f room o env k with
         | none => simp [hk] at hex
         | some rk =>
           obtain ⟨e1, t1, r1⟩ := rk
           simp only [hk, Option.bind_eq_bind, Option.bind_some, Option.pure_def, Option.some.injEq, Prod.mk.injEq] at hex
-          rw [← hex.2.2]; exact ih k _ _ _ _ hy hk
+          rw [← hex.2.2]; exact ih k _ _ _ _ _ _ hy hk
     | writeln e k =>
       simp only [youLevel] at hy
       cases e with
       | none =>
         simp only [exec] at hex
-        cases hk : exec M n f env k with
+        cases hk : exec M n fns w f room o env k with
         | none => simp [hk] at hex
         | some rk =>
           obtain ⟨e1, t1, r1⟩ := rk
           simp only [hk, Option.bind_eq_bind, Option.bind_some, Option.pure_def, Option.some.injEq, Prod.mk.injEq] at hex
-          rw [← hex.2.2]; exact ih k _ _ _ _ hy hk
+          rw [← hex.2.2]; exact ih k _ _ _ _ _ _ hy hk
       | some e =>
         simp only [exec] at hex
         cases hev : evalE M n env e with
         | none => simp only [hev, Option.some.injEq, Prod.mk.injEq] at hex; rw [← hex.2.2]; decide
         | some v =>
           simp only [hev] at hex
-          cases hk : exec M n f env k with
+          cases hk : exec M n fns w f room o env k with
           | none => simp [hk] at hex
           | some rk =>
             obtain ⟨e1, t1, r1⟩ := rk
             simp only [hk, Option.bind_eq_bind, Option.bind_some, Option.pure_def, Option.some.injEq, Prod.mk.injEq] at hex
-            rw [← hex.2.2]; exact ih k _ _ _ _ hy hk
+            rw [← hex.2.2]; exact ih k _ _ _ _ _ _ hy hk
     | putc c k =>
       simp only [youLevel] at hy
       simp only [exec] at hex
-      cases hk : exec M n f env k with
+      cases hk : exec M n fns w f room o env k with
       | none => simp [hk] at hex
       | some rk =>
         obtain ⟨e1, t1, r1⟩ := rk
         simp only [hk, Option.bind_eq_bind, Option.bind_some, Option.pure_def, Option.some.injEq, Prod.mk.injEq] at hex
-        rw [← hex.2.2]; exact ih k _ _ _ _ hy hk
+        rw [← hex.2.2]; exact ih k _ _ _ _ _ _ hy hk
     | block b k =>
       simp only [youLevel, Bool.and_eq_true] at hy
       simp only [exec] at hex
-      cases hb : exec M n f env b with
+      cases hb : exec M n fns w f room o env b with
       | none => simp [hb] at hex
       | some rb =>
         obtain ⟨e1, t1, r1⟩ := rb
         simp only [hb, Option.bind_eq_bind, Option.bind_some] at hex
-        have h1 := ih b _ _ _ _ hy.1 hb
+        have h1 := ih b _ _ _ _ _ _ hy.1 hb
         by_cases hn : r1 = .norm
         · subst hn
           simp only [if_true] at hex
-          cases hk : exec M n f e1 k with
+          cases hk : exec M n fns w f room o e1 k with
           | none => simp [hk] at hex
           | some rk =>
             obtain ⟨e2, t2, r2⟩ := rk
             simp only [hk, Option.bind_some, Option.pure_def, Option.some.injEq, Prod.mk.injEq] at hex
-            rw [← hex.2.2]; exact ih k _ _ _ _ hy.2 hk
+            rw [← hex.2.2]; exact ih k _ _ _ _ _ _ hy.2 hk
         · simp only [hn, if_false, Option.pure_def, Option.some.injEq, Prod.mk.injEq] at hex
           rw [← hex.2.2]; exact h1
     | ifb c t e k =>
@@ -535,21 +559,21 @@ theorem exec_no_defeat (M n : Nat) : ∀ (fuel : Nat) (s : S) (env env' : Env) (
       | none => simp only [hev, Option.some.injEq, Prod.mk.injEq] at hex; rw [← hex.2.2]; decide
       | some cv =>
         simp only [hev] at hex
-        cases hb : exec M n f env (if cv = true then t else e) with
+        cases hb : exec M n fns w f room o env (if cv = true then t else e) with
         | none => simp [hb] at hex
         | some rb =>
           obtain ⟨e1, t1, r1⟩ := rb
           simp only [hb, Option.bind_eq_bind, Option.bind_some] at hex
-          have h1 : r1 ≠ .defeat := ih _ _ _ _ _ (by cases cv <;> simp [hy.1.1, hy.1.2]) hb
+          have h1 : r1 ≠ .defeat := ih _ _ _ _ _ _ _ (by cases cv <;> simp [hy.1.1, hy.1.2]) hb
           by_cases hn : r1 = .norm
           · subst hn
             simp only [if_true] at hex
-            cases hk : exec M n f e1 k with
+            cases hk : exec M n fns w f room o e1 k with
             | none => simp [hk] at hex
             | some rk =>
               obtain ⟨e2, t2, r2⟩ := rk
               simp only [hk, Option.bind_some, Option.pure_def, Option.some.injEq, Prod.mk.injEq] at hex
-              rw [← hex.2.2]; exact ih k _ _ _ _ hy.2 hk
+              rw [← hex.2.2]; exact ih k _ _ _ _ _ _ hy.2 hk
           · simp only [hn, if_false, Option.pure_def, Option.some.injEq, Prod.mk.injEq] at hex
             rw [← hex.2.2]; exact h1
     | loop c body cont k =>
@@ -560,33 +584,33 @@ theorem exec_no_defeat (M n : Nat) : ∀ (fuel : Nat) (s : S) (env env' : Env) (
       | none => simp only [hev, Option.some.injEq, Prod.mk.injEq] at hex; rw [← hex.2.2]; decide
       | some cv =>
         cases cv with
-        | false => simp only [hev] at hex; exact ih k _ _ _ _ hy.2 hex
+        | false => simp only [hev] at hex; exact ih k _ _ _ _ _ _ hy.2 hex
         | true =>
           simp only [hev] at hex
-          cases hb : exec M n f env body with
+          cases hb : exec M n fns w f room o env body with
           | none => simp [hb] at hex
           | some rb =>
             obtain ⟨e1, t1, r1⟩ := rb
             simp only [hb, Option.bind_eq_bind, Option.bind_some] at hex
-            have h1 := ih body _ _ _ _ hy.1.1 hb
+            have h1 := ih body _ _ _ _ _ _ hy.1.1 hb
             by_cases hn : r1 = .norm
             · subst hn
               simp only [if_true] at hex
-              cases hc : exec M n f e1 cont with
+              cases hc : exec M n fns w f room o e1 cont with
               | none => simp [hc] at hex
               | some rc =>
                 obtain ⟨e2, t2, r2⟩ := rc
                 simp only [hc, Option.bind_some] at hex
-                have h2 := ih cont _ _ _ _ hy.1.2 hc
+                have h2 := ih cont _ _ _ _ _ _ hy.1.2 hc
                 by_cases hn2 : r2 = .norm
                 · subst hn2
                   simp only [if_true] at hex
-                  cases hl : exec M n f e2 (.loop c body cont k) with
+                  cases hl : exec M n fns w f room o e2 (.loop c body cont k) with
                   | none => simp [hl] at hex
                   | some rl =>
                     obtain ⟨e3, t3, r3⟩ := rl
                     simp only [hl, Option.bind_some, Option.pure_def, Option.some.injEq, Prod.mk.injEq] at hex
-                    rw [← hex.2.2]; exact ih _ _ _ _ _ hy0 hl
+                    rw [← hex.2.2]; exact ih _ _ _ _ _ _ _ hy0 hl
                 · simp only [hn2, if_false, Option.pure_def, Option.some.injEq, Prod.mk.injEq] at hex
                   rw [← hex.2.2]; exact h2
             · simp only [hn, if_false, Option.pure_def, Option.some.injEq, Prod.mk.injEq] at hex
@@ -596,7 +620,7 @@ theorem exec_no_defeat (M n : Nat) : ∀ (fuel : Nat) (s : S) (env env' : Env) (
     | tryUndo body handler k =>
       simp only [youLevel, Bool.and_eq_true] at hy
       simp only [exec] at hex
-      cases hb : exec M n f env body with
+      cases hb : exec M n fns w f room o env body with
       | none => simp [hb] at hex
       | some rb =>
         obtain ⟨e1, t1, r1⟩ := rb
@@ -604,34 +628,368 @@ theorem exec_no_defeat (M n : Nat) : ∀ (fuel : Nat) (s : S) (env env' : Env) (
         by_cases hd : r1 = .defeat
         · subst hd
           simp only [if_true] at hex
-          cases hh : exec M n f env handler with
+          cases hh : exec M n fns w f room o env handler with
           | none => simp [hh] at hex
           | some rh =>
             obtain ⟨e2, t2, r2⟩ := rh
             simp only [hh, Option.bind_some] at hex
-            have h2 := ih handler _ _ _ _ (plain_youLevel _ hy.1.2) hh
+            have h2 := ih handler _ _ _ _ _ _ (plain_youLevel _ hy.1.2) hh
             by_cases hn2 : r2 = .norm
             · subst hn2
               simp only [if_true] at hex
-              cases hk : exec M n f e2 k with
+              cases hk : exec M n fns w f room o e2 k with
               | none => simp [hk] at hex
               | some rk =>
                 obtain ⟨e3, t3, r3⟩ := rk
                 simp only [hk, Option.bind_some, Option.pure_def, Option.some.injEq, Prod.mk.injEq] at hex
-                rw [← hex.2.2]; exact ih k _ _ _ _ hy.2 hk
+                rw [← hex.2.2]; exact ih k _ _ _ _ _ _ hy.2 hk
             · simp only [hn2, if_false, Option.pure_def, Option.some.injEq, Prod.mk.injEq] at hex
               rw [← hex.2.2]; exact h2
         · simp only [hd, if_false] at hex
           by_cases hn : r1 = .norm
           · subst hn
             simp only [if_true] at hex
-            cases hk : exec M n f e1 k with
+            cases hk : exec M n fns w f room o e1 k with
             | none => simp [hk] at hex
             | some rk =>
               obtain ⟨e3, t3, r3⟩ := rk
               simp only [hk, Option.bind_some, Option.pure_def, Option.some.injEq, Prod.mk.injEq] at hex
-              rw [← hex.2.2]; exact ih k _ _ _ _ hy.2 hk
+              rw [← hex.2.2]; exact ih k _ _ _ _ _ _ hy.2 hk
           · simp only [hn, if_false, Option.pure_def, Option.some.injEq, Prod.mk.injEq] at hex
             rw [← hex.2.2]; exact hd
+
+    | retE e =>
+      simp only [exec] at hex
+      cases hev : evalE M n env e with
+      | none => simp only [hev, Option.some.injEq, Prod.mk.injEq] at hex; rw [← hex.2.2]; decide
+      | some v => simp only [hev, Option.some.injEq, Prod.mk.injEq] at hex; rw [← hex.2.2]; simp
+    | callS g args k =>
+      simp only [youLevel] at hy
+      simp only [exec] at hex
+      cases hc : callWith M n fns w (exec M n fns w f) room o env g args with
+      | none => simp [hc] at hex
+      | some rc =>
+        obtain ⟨trc, flag, rv⟩ := rc
+        cases flag with
+        | true => simp only [hc, Option.some.injEq, Prod.mk.injEq] at hex; rw [← hex.2.2]; decide
+        | false =>
+          simp only [hc] at hex
+          cases hk : exec M n fns w f room o env k with
+          | none => simp [hk] at hex
+          | some rk =>
+            obtain ⟨e1, t1, r1⟩ := rk
+            simp only [hk, Option.bind_eq_bind, Option.bind_some, Option.pure_def, Option.some.injEq, Prod.mk.injEq] at hex
+            rw [← hex.2.2]; exact ih k _ _ _ _ _ _ hy hk
+    | declCall x g args k =>
+      simp only [youLevel] at hy
+      simp only [exec] at hex
+      cases hc : callWith M n fns w (exec M n fns w f) room o env g args with
+      | none => simp [hc] at hex
+      | some rc =>
+        obtain ⟨trc, flag, rv⟩ := rc
+        cases flag with
+        | true => simp only [hc, Option.some.injEq, Prod.mk.injEq] at hex; rw [← hex.2.2]; decide
+        | false =>
+          cases rv with
+          | none => simp [hc] at hex
+          | some v =>
+            simp only [hc] at hex
+            cases hk : exec M n fns w f room (o + w) (upd env x v) k with
+            | none => simp [hk] at hex
+            | some rk =>
+              obtain ⟨e1, t1, r1⟩ := rk
+              simp only [hk, Option.bind_eq_bind, Option.bind_some, Option.pure_def, Option.some.injEq, Prod.mk.injEq] at hex
+              rw [← hex.2.2]; exact ih k _ _ _ _ _ _ hy hk
+    | assignCall x g args k =>
+      simp only [youLevel] at hy
+      simp only [exec] at hex
+      cases hc : callWith M n fns w (exec M n fns w f) room o env g args with
+      | none => simp [hc] at hex
+      | some rc =>
+        obtain ⟨trc, flag, rv⟩ := rc
+        cases flag with
+        | true => simp only [hc, Option.some.injEq, Prod.mk.injEq] at hex; rw [← hex.2.2]; decide
+        | false =>
+          cases rv with
+          | none => simp [hc] at hex
+          | some v =>
+            simp only [hc] at hex
+            cases hk : exec M n fns w f room o (upd env x v) k with
+            | none => simp [hk] at hex
+            | some rk =>
+              obtain ⟨e1, t1, r1⟩ := rk
+              simp only [hk, Option.bind_eq_bind, Option.bind_some, Option.pure_def, Option.some.injEq, Prod.mk.injEq] at hex
+              rw [← hex.2.2]; exact ih k _ _ _ _ _ _ hy hk
+
+/-- a list that cannot fall off its end never finishes normally -/
+theorem exec_noFall (M n : Nat) (fns : List FDecl) (w : Nat) : ∀ (fuel : Nat) (s : S) (room o : Nat) (env env' : Env) (tr : List Ev) (res : Res),
+    noFall s = true → exec M n fns w fuel room o env s = some (env', tr, res) → res ≠ .norm := by
+  intro fuel
+  induction fuel with
+  | zero => intro s room o env env' tr res _ h; simp [exec] at h
+  | succ f ih =>
+    intro s room o env env' tr res hy hex
+    cases s with
+    | nil => simp [noFall] at hy
+    | ret => simp only [exec, Option.some.injEq, Prod.mk.injEq] at hex; rw [← hex.2.2]; decide
+    | decl x e k =>
+      simp only [noFall] at hy
+      simp only [exec] at hex
+      cases hev : evalE M n env e with
+      | none => simp only [hev, Option.some.injEq, Prod.mk.injEq] at hex; rw [← hex.2.2]; decide
+      | some v => simp only [hev] at hex; exact ih k _ _ _ _ _ _ hy hex
+    | assign x e k =>
+      simp only [noFall] at hy
+      simp only [exec] at hex
+      cases hev : evalE M n env e with
+      | none => simp only [hev, Option.some.injEq, Prod.mk.injEq] at hex; rw [← hex.2.2]; decide
+      | some v => simp only [hev] at hex; exact ih k _ _ _ _ _ _ hy hex
+    | write e k =>
+      simp only [noFall] at hy
+      simp only [exec] at hex
+      cases hev : evalE M n env e with
+      | none => simp only [hev, Option.some.injEq, Prod.mk.injEq] at hex; rw [← hex.2.2]; decide
+      | some v =>
+        simp only [hev] at hex
+        cases hk : exec M n fns w f room o env k with
+        | none => simp [hk] at hex
+        | some rk =>
+          obtain ⟨e1, t1, r1⟩ := rk
+          simp only [hk, Option.bind_eq_bind, Option.bind_some, Option.pure_def, Option.some.injEq, Prod.mk.injEq] at hex
+          rw [← hex.2.2]; exact ih k _ _ _ _ _ _ hy hk
+    | writeln e k =>
+      simp only [noFall] at hy
+      cases e with
+      | none =>
+        simp only [exec] at hex
+        cases hk : exec M n fns w f room o env k with
+        | none => simp [hk] at hex
+        | some rk =>
+          obtain ⟨e1, t1, r1⟩ := rk
+          simp only [hk, Option.bind_eq_bind, Option.bind_some, Option.pure_def, Option.some.injEq, Prod.mk.injEq] at hex
+          rw [← hex.2.2]; exact ih k _ _ _ _ _ _ hy hk
+      | some e =>
+        simp only [exec] at hex
+        cases hev : evalE M n env e with
+        | none => simp only [hev, Option.some.injEq, Prod.mk.injEq] at hex; rw [← hex.2.2]; decide
+        | some v =>
+          simp only [hev] at hex
+          cases hk : exec M n fns w f room o env k with
+          | none => simp [hk] at hex
+          | some rk =>
+            obtain ⟨e1, t1, r1⟩ := rk
+            simp only [hk, Option.bind_eq_bind, Option.bind_some, Option.pure_def, Option.some.injEq, Prod.mk.injEq] at hex
+            rw [← hex.2.2]; exact ih k _ _ _ _ _ _ hy hk
+    | putc c k =>
+      simp only [noFall] at hy
+      simp only [exec] at hex
+      cases hk : exec M n fns w f room o env k with
+      | none => simp [hk] at hex
+      | some rk =>
+        obtain ⟨e1, t1, r1⟩ := rk
+        simp only [hk, Option.bind_eq_bind, Option.bind_some, Option.pure_def, Option.some.injEq, Prod.mk.injEq] at hex
+        rw [← hex.2.2]; exact ih k _ _ _ _ _ _ hy hk
+    | block b k =>
+      simp only [noFall, Bool.or_eq_true] at hy
+      simp only [exec] at hex
+      cases hb : exec M n fns w f room o env b with
+      | none => simp [hb] at hex
+      | some rb =>
+        obtain ⟨e1, t1, r1⟩ := rb
+        simp only [hb, Option.bind_eq_bind, Option.bind_some] at hex
+        by_cases hn : r1 = .norm
+        · subst hn
+          simp only [if_true] at hex
+          cases hk : exec M n fns w f room o e1 k with
+          | none => simp [hk] at hex
+          | some rk =>
+            obtain ⟨e2, t2, r2⟩ := rk
+            simp only [hk, Option.bind_some, Option.pure_def, Option.some.injEq, Prod.mk.injEq] at hex
+            rw [← hex.2.2]
+            rcases hy with hy | hy
+            · exact absurd rfl (ih b _ _ _ _ _ _ hy hb)
+            · exact ih k _ _ _ _ _ _ hy hk
+        · simp only [hn, if_false, Option.pure_def, Option.some.injEq, Prod.mk.injEq] at hex
+          rw [← hex.2.2]; exact hn
+    | ifb c t e k =>
+      simp only [noFall, Bool.or_eq_true, Bool.and_eq_true] at hy
+      simp only [exec] at hex
+      cases hev : evalB M n env c with
+      | none => simp only [hev, Option.some.injEq, Prod.mk.injEq] at hex; rw [← hex.2.2]; decide
+      | some cv =>
+        simp only [hev] at hex
+        cases hb : exec M n fns w f room o env (if cv = true then t else e) with
+        | none => simp [hb] at hex
+        | some rb =>
+          obtain ⟨e1, t1, r1⟩ := rb
+          simp only [hb, Option.bind_eq_bind, Option.bind_some] at hex
+          by_cases hn : r1 = .norm
+          · subst hn
+            simp only [if_true] at hex
+            cases hk : exec M n fns w f room o e1 k with
+            | none => simp [hk] at hex
+            | some rk =>
+              obtain ⟨e2, t2, r2⟩ := rk
+              simp only [hk, Option.bind_some, Option.pure_def, Option.some.injEq, Prod.mk.injEq] at hex
+              rw [← hex.2.2]
+              rcases hy with hy | hy
+              · exact absurd rfl (ih _ _ _ _ _ _ _ (by cases cv <;> simp [hy.1, hy.2]) hb)
+              · exact ih k _ _ _ _ _ _ hy hk
+          · simp only [hn, if_false, Option.pure_def, Option.some.injEq, Prod.mk.injEq] at hex
+            rw [← hex.2.2]; exact hn
+    | loop c body cont k =>
+      have hy0 := hy
+      simp only [noFall] at hy
+      simp only [exec] at hex
+      cases hev : evalB M n env c with
+      | none => simp only [hev, Option.some.injEq, Prod.mk.injEq] at hex; rw [← hex.2.2]; decide
+      | some cv =>
+        cases cv with
+        | false => simp only [hev] at hex; exact ih k _ _ _ _ _ _ hy hex
+        | true =>
+          simp only [hev] at hex
+          cases hb : exec M n fns w f room o env body with
+          | none => simp [hb] at hex
+          | some rb =>
+            obtain ⟨e1, t1, r1⟩ := rb
+            simp only [hb, Option.bind_eq_bind, Option.bind_some] at hex
+            by_cases hn : r1 = .norm
+            · subst hn
+              simp only [if_true] at hex
+              cases hc : exec M n fns w f room o e1 cont with
+              | none => simp [hc] at hex
+              | some rc =>
+                obtain ⟨e2, t2, r2⟩ := rc
+                simp only [hc, Option.bind_some] at hex
+                by_cases hn2 : r2 = .norm
+                · subst hn2
+                  simp only [if_true] at hex
+                  cases hl : exec M n fns w f room o e2 (.loop c body cont k) with
+                  | none => simp [hl] at hex
+                  | some rl =>
+                    obtain ⟨e3, t3, r3⟩ := rl
+                    simp only [hl, Option.bind_some, Option.pure_def, Option.some.injEq, Prod.mk.injEq] at hex
+                    rw [← hex.2.2]; exact ih _ _ _ _ _ _ _ hy0 hl
+                · simp only [hn2, if_false, Option.pure_def, Option.some.injEq, Prod.mk.injEq] at hex
+                  rw [← hex.2.2]; exact hn2
+            · simp only [hn, if_false, Option.pure_def, Option.some.injEq, Prod.mk.injEq] at hex
+              rw [← hex.2.2]; exact hn
+    | defeat k => simp only [exec, Option.some.injEq, Prod.mk.injEq] at hex; rw [← hex.2.2]; decide
+    | defeatIf c k =>
+      simp only [noFall] at hy
+      simp only [exec] at hex
+      cases hev : evalB M n env c with
+      | none => simp only [hev, Option.some.injEq, Prod.mk.injEq] at hex; rw [← hex.2.2]; decide
+      | some cv =>
+        cases cv with
+        | true => simp only [hev, Option.some.injEq, Prod.mk.injEq] at hex; rw [← hex.2.2]; decide
+        | false => simp only [hev] at hex; exact ih k _ _ _ _ _ _ hy hex
+    | tryUndo body handler k =>
+      simp only [noFall, Bool.or_eq_true, Bool.and_eq_true] at hy
+      simp only [exec] at hex
+      cases hb : exec M n fns w f room o env body with
+      | none => simp [hb] at hex
+      | some rb =>
+        obtain ⟨e1, t1, r1⟩ := rb
+        simp only [hb, Option.bind_eq_bind, Option.bind_some] at hex
+        by_cases hd : r1 = .defeat
+        · subst hd
+          simp only [if_true] at hex
+          cases hh : exec M n fns w f room o env handler with
+          | none => simp [hh] at hex
+          | some rh =>
+            obtain ⟨e2, t2, r2⟩ := rh
+            simp only [hh, Option.bind_some] at hex
+            by_cases hn2 : r2 = .norm
+            · subst hn2
+              simp only [if_true] at hex
+              cases hk : exec M n fns w f room o e2 k with
+              | none => simp [hk] at hex
+              | some rk =>
+                obtain ⟨e3, t3, r3⟩ := rk
+                simp only [hk, Option.bind_some, Option.pure_def, Option.some.injEq, Prod.mk.injEq] at hex
+                rw [← hex.2.2]
+                rcases hy with hy | hy
+                · exact absurd rfl (ih handler _ _ _ _ _ _ hy.2 hh)
+                · exact ih k _ _ _ _ _ _ hy hk
+            · simp only [hn2, if_false, Option.pure_def, Option.some.injEq, Prod.mk.injEq] at hex
+              rw [← hex.2.2]; exact hn2
+        · simp only [hd, if_false] at hex
+          by_cases hn : r1 = .norm
+          · subst hn
+            simp only [if_true] at hex
+            cases hk : exec M n fns w f room o e1 k with
+            | none => simp [hk] at hex
+            | some rk =>
+              obtain ⟨e3, t3, r3⟩ := rk
+              simp only [hk, Option.bind_some, Option.pure_def, Option.some.injEq, Prod.mk.injEq] at hex
+              rw [← hex.2.2]
+              rcases hy with hy | hy
+              · exact absurd rfl (ih body _ _ _ _ _ _ hy.1 hb)
+              · exact ih k _ _ _ _ _ _ hy hk
+          · simp only [hn, if_false, Option.pure_def, Option.some.injEq, Prod.mk.injEq] at hex
+            rw [← hex.2.2]; exact hn
+    | retE e =>
+      simp only [exec] at hex
+      cases hev : evalE M n env e with
+      | none => simp only [hev, Option.some.injEq, Prod.mk.injEq] at hex; rw [← hex.2.2]; decide
+      | some v => simp only [hev, Option.some.injEq, Prod.mk.injEq] at hex; rw [← hex.2.2]; simp
+    | callS g args k =>
+      simp only [noFall] at hy
+      simp only [exec] at hex
+      cases hc : callWith M n fns w (exec M n fns w f) room o env g args with
+      | none => simp [hc] at hex
+      | some rc =>
+        obtain ⟨trc, flag, rv⟩ := rc
+        cases flag with
+        | true => simp only [hc, Option.some.injEq, Prod.mk.injEq] at hex; rw [← hex.2.2]; decide
+        | false =>
+          simp only [hc] at hex
+          cases hk : exec M n fns w f room o env k with
+          | none => simp [hk] at hex
+          | some rk =>
+            obtain ⟨e1, t1, r1⟩ := rk
+            simp only [hk, Option.bind_eq_bind, Option.bind_some, Option.pure_def, Option.some.injEq, Prod.mk.injEq] at hex
+            rw [← hex.2.2]; exact ih k _ _ _ _ _ _ hy hk
+    | declCall x g args k =>
+      simp only [noFall] at hy
+      simp only [exec] at hex
+      cases hc : callWith M n fns w (exec M n fns w f) room o env g args with
+      | none => simp [hc] at hex
+      | some rc =>
+        obtain ⟨trc, flag, rv⟩ := rc
+        cases flag with
+        | true => simp only [hc, Option.some.injEq, Prod.mk.injEq] at hex; rw [← hex.2.2]; decide
+        | false =>
+          cases rv with
+          | none => simp [hc] at hex
+          | some v =>
+            simp only [hc] at hex
+            cases hk : exec M n fns w f room (o + w) (upd env x v) k with
+            | none => simp [hk] at hex
+            | some rk =>
+              obtain ⟨e1, t1, r1⟩ := rk
+              simp only [hk, Option.bind_eq_bind, Option.bind_some, Option.pure_def, Option.some.injEq, Prod.mk.injEq] at hex
+              rw [← hex.2.2]; exact ih k _ _ _ _ _ _ hy hk
+    | assignCall x g args k =>
+      simp only [noFall] at hy
+      simp only [exec] at hex
+      cases hc : callWith M n fns w (exec M n fns w f) room o env g args with
+      | none => simp [hc] at hex
+      | some rc =>
+        obtain ⟨trc, flag, rv⟩ := rc
+        cases flag with
+        | true => simp only [hc, Option.some.injEq, Prod.mk.injEq] at hex; rw [← hex.2.2]; decide
+        | false =>
+          cases rv with
+          | none => simp [hc] at hex
+          | some v =>
+            simp only [hc] at hex
+            cases hk : exec M n fns w f room o (upd env x v) k with
+            | none => simp [hk] at hex
+            | some rk =>
+              obtain ⟨e1, t1, r1⟩ := rk
+              simp only [hk, Option.bind_eq_bind, Option.bind_some, Option.pure_def, Option.some.injEq, Prod.mk.injEq] at hex
+              rw [← hex.2.2]; exact ih k _ _ _ _ _ _ hy hk
 
 end HidVerif.Core
